@@ -141,6 +141,28 @@ def _file_checks(ss, tr, sc, d):
             out["csv_ok"] = _arr_eq(back[:, :exp.shape[1]], exp) if len(rows) else True
             header = open(csv).readline().strip().split(",")
             out["csv_ok"] = out["csv_ok"] and [h.strip() for h in header][:len(names)] == names
+            # a selection of columns in the caller's own (not ascending) order: every value under the label of its column
+            ncol = exp.shape[1]
+            if len(rows) and ncol >= 4:
+                pick = [ncol - 1, 1, ncol - 2, 2]
+                for sort_idx in (True, False):
+                    csv2 = os.path.join(d, "export_sel%d.csv" % int(sort_idx))
+                    pl.export_csv(path=csv2, idx=list(pick), sort_idx=sort_idx)
+                    head2 = [h.strip() for h in open(csv2).readline().strip().split(",")]
+                    back2 = np.loadtxt(csv2, delimiter=",", skiprows=1, ndmin=2)
+                    off = 1 if (len(head2) == len(pick) + 1) else 0            # a leading time column
+                    ok2 = back2.shape[1] == len(head2) and len(head2) - off == len(pick)
+                    for j, h_ in enumerate(head2[off:]):
+                        if not ok2:
+                            break
+                        if h_ not in names:
+                            ok2 = False
+                            break
+                        ok2 = _arr_eq(back2[:, off + j:off + j + 1], exp[:, names.index(h_):names.index(h_) + 1])
+                    ok2 = ok2 and sorted(head2[off:]) == sorted(names[c_] for c_ in pick)
+                    if not ok2:
+                        out["csv_ok"] = False
+                        out["csv_error"] = "selected columns %s (sort_idx=%s): a value is not under the label of its column" % (pick, sort_idx)
         except Exception as ex:   # loader failing on files the library wrote is an observation
             out["plotter_ok"] = False
             out["loader_error"] = "%s: %s" % (type(ex).__name__, str(ex)[:200])
